@@ -126,21 +126,25 @@ def _process_step_expression(
 
         case 'transitive':
             # The transitive expression is very similar to the field
-            # expression, but it proceeds recursively until no target is
-            # found and it and it sets the new targets to the entire list
-            # of assets identified during the entire transitive recursion.
+            # expression, but it proceeds repeatedly until no new target is
+            # found and it sets the new targets to the entire list of assets
+            # identified along the way. Each asset is expanded only once, so
+            # that cyclic associations do not lead to endless recursion.
+            field_name = step_expression['stepExpression']['name']
             new_target_assets = []
-            for target_asset in target_assets:
-                new_target_assets.extend(model.\
-                    get_associated_assets_by_field_name(target_asset,
-                        step_expression['stepExpression']['name']))
-            if new_target_assets:
-                (additional_assets, _) = _process_step_expression(
-                    lang_graph, model, new_target_assets, step_expression)
-                new_target_assets.extend(additional_assets)
-                return (new_target_assets, None)
-            else:
-                return ([], None)
+            visited_ids = set()
+            assets_to_expand = target_assets
+            while assets_to_expand:
+                newly_found_assets = []
+                for target_asset in assets_to_expand:
+                    for asset in model.get_associated_assets_by_field_name(
+                            target_asset, field_name):
+                        if asset.id not in visited_ids:
+                            visited_ids.add(asset.id)
+                            newly_found_assets.append(asset)
+                new_target_assets.extend(newly_found_assets)
+                assets_to_expand = newly_found_assets
+            return (new_target_assets, None)
 
         case 'subType':
             new_target_assets = []
